@@ -7,8 +7,15 @@ base = json.load(open('/root/.vp/BASELINE.json'))
 hooks = subprocess.run(['git','-C','/repo','log','--format=%h %s'],capture_output=True,text=True).stdout.splitlines()
 hook_commits = [l.split()[0] for l in hooks if l.split(' ',1)[1].startswith('verif:')]
 checks=[]
+try:
+    bounded = {b["prop"] for b in json.load(open('/verif/bounded/index.json'))}
+except Exception:
+    bounded = set()
 for pid in sorted(claims):
     c = claims[pid]
+    if pid in bounded:
+        c.setdefault("category", "exploration")
+        c.setdefault("technique", "contract-based deductive verification (weakest-precondition VCs from go/ssa of the real functions, //@ contracts, z3/cvc5) for the functions named as PROVED; a BOUNDED exhaustive run of the real code against an executable oracle stands in for the part named as BOUNDED")
     checks.append({
         "property_id": pid,
         "quick_cmd": f"./check {pid} quick",
